@@ -3,7 +3,7 @@
 set -e
 OUT=$1; FEATS=$2
 T=$(mktemp -d)
-cd /repo
+cd ${GAV_REPO:-/repo}
 LD_LIBRARY_PATH=$(rustc +nightly --print sysroot)/lib RUSTFLAGS="-Zmir-opt-level=0 -Awarnings" \
  RUSTC_WORKSPACE_WRAPPER=/verif/tools/driver/target/release/gav-driver GAV_OUT=$OUT GAV_NONCE=manual \
  CARGO_TARGET_DIR=$T CARGO_NET_OFFLINE=true cargo +nightly check --offline --lib --features "$FEATS" 2>&1 | tail -30
